@@ -120,7 +120,7 @@ def gen_report(rng, small=False):
 
 NOISE_LINES = [b"warning: something", b"", b"   ", b"\xff\xfe binary \x00", b"Traceback (most recent call last):",
                b"1 2", b"1 2 3 4", b"a b c", b"1.0 0 0", b"0x1 0 0", b"\xd9\xa1 0 0", b"1 0 zero", b"x" * 5000,
-               b"cr\rinside", b"- 1 0"]
+               b"cr\rinside", b"- 1 0", b"store: entries hits misses 3 0 0", b"x 1 2 3", b"2026 09 29 3 0 0 worker", b"3 0 0 0"]
 SPOOF_LINES = [b"1 0 0", b"+1 0 0", b"1_0 0 0", b" 7 0 0 ", b"0 1 1", b"5 -1 0", b"\t3\t0\t0", b"1 0 0\r"]
 
 
